@@ -57,6 +57,24 @@ func replayProof(c *vlib.Ctx) {
 			Proof                            string
 		} `json:"case"`
 	}
+	var mf struct {
+		What string `json:"what"`
+		Case struct {
+			Part         string
+			Sizes        []uint64
+			Bad          int
+			TaxH, ProofH uint64
+		} `json:"case"`
+	}
+	if err := json.Unmarshal(b, &mf); err == nil && mf.Case.Part == "multi" {
+		fmt.Printf("replaying the several-proofs case %+v; required: %s must not happen\n", mf.Case, mf.What)
+		onlyMulti = &mf.Case
+		proofs(c)
+		if c.NViolations() == 0 {
+			fmt.Println("observed: the saved case no longer violates the property on this tree")
+		}
+		return
+	}
 	if err := json.Unmarshal(b, &f); err == nil && f.Case.Part == "sectors" {
 		fmt.Printf("replaying the sector-proof scenarios; required: %s must not happen\n", f.What)
 		sectorProofs(c)
@@ -108,6 +126,10 @@ func proofs(c *vlib.Ctx) {
 			for _, r := range rows {
 				eraOf[[3]uint64{r.Child, r.TaxH, r.ProofH}] = r.Era
 			}
+		case strings.HasPrefix(ln, "TXCASES "):
+			if err := json.Unmarshal([]byte(vlib.UnquoteTLA(strings.TrimPrefix(ln, "TXCASES "))), &txCases); err != nil {
+				c.Fatal("transaction cases: %v", err)
+			}
 		case strings.HasPrefix(ln, "ERAS "):
 			if err := json.Unmarshal([]byte(vlib.UnquoteTLA(strings.TrimPrefix(ln, "ERAS "))), &eras); err != nil {
 				c.Fatal("eras: %v", err)
@@ -131,6 +153,11 @@ func proofs(c *vlib.Ctx) {
 			last--
 		}
 		return !(era == 1 && idx == last && size%64 == 0)
+	}
+	txHonest, txEraOf = honest, eraOf
+	if onlyMulti != nil {
+		multiProofs(c)
+		return
 	}
 	holes := map[[3]int]map[string]bool{} // (ver, n, i) -> kinds the transcribed verifier accepts
 	for _, s := range shapes {
